@@ -286,9 +286,11 @@ def extract_propositions():
     src, tree = load(PROP_REL)
     try:
         same_shape(get_def(tree, "PropositionMonitor", PROP_REL), MONITOR_TEMPLATE, "PropositionMonitor")
+        coerce = False
     except TemplateMismatch:   # the same with the atom's value coerced to bool
         same_shape(get_def(tree, "PropositionMonitor", PROP_REL),
                    MONITOR_TEMPLATE.replace("state[str(ap.syntax_id)] = b", "state[str(ap.syntax_id)] = bool(b)"), "PropositionMonitor")
+        coerce = True
     for q, tmpl in NODE_TEMPLATES.items():
         same_shape(get_def(tree, q, PROP_REL), tmpl, q)
     ctor, temporal = [], []
@@ -328,34 +330,36 @@ def extract_propositions():
         if temp:
             temporal.append(cls)
     # evaluate(): used when a non-temporal `require` is executed while a simulation runs
-    EVAL = {
-        "Atomic": ["def evaluate(self):\n    return self.closure()\n"],
-        "Not": ["def evaluate(self):\n    return not self.req.evaluate()\n"],
-        "And": ["def evaluate(self):\n    return reduce(operator.and_, [node.evaluate() for node in self.reqs], True)\n",
-                "def evaluate(self):\n    return all([node.evaluate() for node in self.reqs])\n"],
-        "Or": ["def evaluate(self):\n    return reduce(operator.or_, [node.evaluate() for node in self.reqs], False)\n",
-               "def evaluate(self):\n    return any([node.evaluate() for node in self.reqs])\n"],
-        "Implies": ["def evaluate(self):\n    return (not self.lhs.evaluate()) or self.rhs.evaluate()\n",
-                    "def evaluate(self):\n    return not self.lhs.evaluate() or self.rhs.evaluate()\n",
-                    "def evaluate(self):\n    lhs = self.lhs.evaluate()\n    rhs = self.rhs.evaluate()\n    return (not lhs) or rhs\n"],
+    EVAL = {   # class -> [(normalised form, template)]
+        "Atomic": [("closure()", "def evaluate(self):\n    return self.closure()\n")],
+        "Not": [("not x", "def evaluate(self):\n    return not self.req.evaluate()\n")],
+        "And": [("bitand", "def evaluate(self):\n    return reduce(operator.and_, [node.evaluate() for node in self.reqs], True)\n"),
+                ("all", "def evaluate(self):\n    return all([node.evaluate() for node in self.reqs])\n"),
+                ("all", "def evaluate(self):\n    return all(node.evaluate() for node in self.reqs)\n")],
+        "Or": [("bitor", "def evaluate(self):\n    return reduce(operator.or_, [node.evaluate() for node in self.reqs], False)\n"),
+               ("any", "def evaluate(self):\n    return any([node.evaluate() for node in self.reqs])\n"),
+               ("any", "def evaluate(self):\n    return any(node.evaluate() for node in self.reqs)\n")],
+        "Implies": [("(not x) or y", "def evaluate(self):\n    return (not self.lhs.evaluate()) or self.rhs.evaluate()\n"),
+                    ("(not x) or y", "def evaluate(self):\n    lhs = self.lhs.evaluate()\n    rhs = self.rhs.evaluate()\n    return (not lhs) or rhs\n")],
     }
     from vlib.ctx import find_def
-    evaluable = []
+    evaluable, forms = [], []
     for cls, shapes in EVAL.items():
         fn = find_def(tree, f"{cls}.evaluate")
         if fn is None:
             expect(cls == "Implies", f"{cls}.evaluate is missing")
             continue
-        ok = False
-        for src_ in shapes:
+        form = None
+        for name, src_ in shapes:
             try:
                 same_shape(fn, src_, f"{cls}.evaluate")
-                ok = True
+                form = name
                 break
             except TemplateMismatch:
                 pass
-        expect(ok, f"{cls}.evaluate: unrecognised body")
+        expect(form is not None, f"{cls}.evaluate: unrecognised body")
         evaluable.append(cls)
+        forms.append((cls, form))
     for cls in ("Always", "Eventually", "Next", "Until"):
         expect(find_def(tree, f"{cls}.evaluate") is None, f"{cls}.evaluate: a temporal class defines evaluate()")
     # Atomic
@@ -367,7 +371,7 @@ def __init__(self, closure, syntax_id):
     self.syntax_id = syntax_id
     self.closure = closure
 ''', "Atomic.__init__")
-    return {"ctorMap": ctor, "temporal": temporal, "evaluable": evaluable}
+    return {"ctorMap": ctor, "temporal": temporal, "evaluable": evaluable, "evalForms": forms, "atomCoerce": coerce}
 
 
 # --------------------------------------------------------------------------------------------- scenarios.py / requirements.py
@@ -377,6 +381,44 @@ REQ_REL = "src/scenic/core/requirements.py"
 
 def _is_self_attr(node, attr):
     return isinstance(node, ast.Attribute) and node.attr == attr and is_name(node.value, "self")
+
+
+def _extract_add_dynamic(fn):
+    """`_addDynamicRequirement`: a `require` is appended to `_temporalRequirements`; if the scenario is already running
+    (`_requirementMonitors is not None`) it gets a monitor at once, the monitor is updated in the same step and the
+    simulation is rejected on the extracted verdict set.  Returns that set, or None when no monitor is created.
+    Other statement kinds may be dispatched elsewhere (`if ty is RequirementType.require: … else: …`)."""
+    what = "_addDynamicRequirement"
+    add = body_nodoc(fn)
+    expect(len(add) >= 2 and isinstance(add[0], ast.Assign) and len(add[0].targets) == 1 and isinstance(add[0].targets[0], ast.Name)
+           and isinstance(add[0].value, ast.Call) and is_name(add[0].value.func, "DynamicRequirement"),
+           f"{what}: does not start by building a DynamicRequirement")
+    dreq = add[0].targets[0].id
+    args = [ast.unparse(a) for a in add[0].value.args]
+    expect(args[:4] == ["ty", "req", "line", "name"] and not add[0].value.keywords, f"{what}: DynamicRequirement arguments changed")
+    rest = add[1:]
+    if len(rest) == 1 and isinstance(rest[0], ast.If) and ast.unparse(rest[0].test) in (
+            "ty is RequirementType.require", "ty == RequirementType.require",
+            "ty is requirements.RequirementType.require", "ty == requirements.RequirementType.require"):
+        other = [ast.unparse(s) for s in rest[0].orelse]
+        expect(not any("_temporalRequirements" in l or "_requirementMonitors" in l for l in other),
+               f"{what}: the branch for other statement kinds touches the requirement monitors")
+        rest = rest[0].body
+    lines = [ast.unparse(s) for s in rest]
+    expect(lines and lines[0] == f"self._temporalRequirements.append({dreq})", f"{what}: the requirement is not appended to _temporalRequirements first")
+    if len(rest) == 1:
+        return None
+    expect(len(rest) == 2 and isinstance(rest[1], ast.If) and ast.unparse(rest[1].test) == "self._requirementMonitors is not None"
+           and not rest[1].orelse, f"{what}: unrecognised shape")
+    inner = rest[1].body
+    expect(len(inner) == 3 and isinstance(inner[0], ast.Assign) and isinstance(inner[0].targets[0], ast.Name)
+           and ast.unparse(inner[0].value) == f"{dreq}.toMonitor()", f"{what}: the monitor is not `{dreq}.toMonitor()`")
+    mon = inner[0].targets[0].id
+    expect(ast.unparse(inner[1]) == f"self._requirementMonitors.append({mon})", f"{what}: the monitor is not appended to _requirementMonitors")
+    cond = inner[2]
+    expect(isinstance(cond, ast.If) and not cond.orelse and len(cond.body) == 1 and isinstance(cond.body[0], ast.Raise)
+           and ast.unparse(cond.body[0].exc) == f"RejectSimulationException(str({mon}))", f"{what}: rejection statement changed")
+    return verdict_set(cond.test, lambda n: ast.unparse(n) == f"{mon}.value()", what)
 
 
 def extract_rule():
@@ -425,24 +467,13 @@ def extract_rule():
     expect(want in lines, "_start: monitors are not built from self._temporalRequirements")
     expect(lines.index(want) < min(k for k, l in enumerate(lines) if l.startswith("veneer.startScenario")),
            "_start: monitors are built after veneer.startScenario")
+    # ---- _bindTo: the top-level scenario keeps its own *list* of temporal requirements (a `require` executed in its
+    #      compose block appends to it)
+    bind = [ast.unparse(s) for s in body_nodoc(get_def(tree, "DynamicScenario._bindTo", SCN_REL))]
+    expect("self._temporalRequirements = list(scene.temporalRequirements)" in bind,
+           "_bindTo: self._temporalRequirements is not a fresh list of the scene's temporal requirements")
     # ---- _addDynamicRequirement
-    add = body_nodoc(get_def(tree, "DynamicScenario._addDynamicRequirement", SCN_REL))
-    lines = [ast.unparse(s) for s in add]
-    base = ["dreq = DynamicRequirement(ty, req, line, name)", "self._temporalRequirements.append(dreq)"]
-    if lines == base:
-        dyn = False
-    else:
-        expect(lines[:2] == base and len(add) == 3 and isinstance(add[2], ast.If)
-               and ast.unparse(add[2].test) == "self._requirementMonitors is not None" and not add[2].orelse,
-               "_addDynamicRequirement: unrecognised shape")
-        inner = [ast.unparse(s) for s in add[2].body]
-        ok = (inner == ["self._requirementMonitors.append(dreq.toMonitor())"]
-              or (len(inner) == 3 and inner[0] == "monitor = dreq.toMonitor()"
-                  and inner[1] == "self._requirementMonitors.append(monitor)"
-                  and inner[2].replace("\n", " ").replace("    ", "") ==
-                  "if monitor.value() == rv_ltl.B4.FALSE: raise RejectSimulationException(str(monitor))"))
-        expect(ok, "_addDynamicRequirement: unrecognised monitor registration")
-        dyn = True
+    dyn_reject = _extract_add_dynamic(get_def(tree, "DynamicScenario._addDynamicRequirement", SCN_REL))
     # ---- requirements.py
     rsrc, rtree = load(REQ_REL)
     init_last = None
@@ -489,7 +520,7 @@ def extract_rule():
     expect("result = req.evaluate()" in imm and "if not result:" in imm and "raise RejectSimulationException(name)" in imm,
            "veneer.require: immediate evaluation of a non-temporal run-time requirement changed")
     return {"stepReject": step_reject, "stopReject": stop_reject, "initLast": init_last,
-            "sceneReject": scene_reject, "dynMonitored": dyn}
+            "sceneReject": scene_reject, "dynReject": dyn_reject}
 
 
 def extract(check_digests=True):
@@ -514,6 +545,7 @@ def to_lean(d):
     ctor = ",\n   ".join(f"({_s(c)}, {_s(rv)}, {_lst(p)})" for c, rv, p in d["ctorMap"])
     sugar = ",\n   ".join(f"({_s(c)}, {_s(e)})" for c, e in d["sugar"])
     temporal = ", ".join(_s(c) for c in d["temporal"])
+    forms = ", ".join(f"({_s(c)}, {_s(e)})" for c, e in d["evalForms"])
     b = lambda v: "true" if v else "false"
     return f"""import ScenicModel.Model.LTL
 namespace Scenic.Gen.LTL
@@ -529,7 +561,7 @@ def rule : Rule :=
     stopReject := {_lst(r['stopReject'])},
     initLast := {r['initLast']},
     sceneReject := {_lst(r['sceneReject'])},
-    dynMonitored := {b(r['dynMonitored'])},
+    dynReject := {'none' if r['dynReject'] is None else 'some ' + _lst(r['dynReject'])},
     impliesEval := {b(r['impliesEval'])} }}
 
 /-- propositions.py: Scenic proposition class -> (rv_ltl constructor, positions of the operands passed) -/
@@ -538,6 +570,13 @@ def ctorMap : List (String × String × List Nat) :=
 
 /-- propositions.py: classes that set `is_temporal` -/
 def temporalClasses : List String := [{temporal}]
+
+/-- propositions.py `PropositionMonitor.update`: the value of an atom is coerced with `bool()` before it is handed to rv_ltl -/
+def atomCoerce : Bool := {b(d['atomCoerce'])}
+
+/-- propositions.py: the normalised body of `evaluate()` of each non-temporal class -/
+def evalForms : List (String × String) :=
+  [{forms}]
 
 /-- rv_ltl/monitor.py: sugar monitors as (class, expansion) -/
 def sugar : List (String × String) :=
